@@ -131,29 +131,44 @@ Section Frame.
       else FCont cap got1 maxb1 scr1 pipe1
     else FCont cap got maxb scr pipe.
 
+  (* result of one turn of the while loop: the call ends, or the loop goes round again *)
+  Inductive fturn :=
+  | FEnd (st : frecv) (outs : list bytes) (pipe : bytes)
+  | FNext (st : frecv) (maxb : N) (scr : list N) (pipe : bytes) (outs : list bytes).
+
+  (* lines 303-316: body phase *)
+  Definition f_body_phase (cr : CR) (cap1 : N) (got1 : bytes) (maxb1 : N) (scr1 : list N) (pipe1 : bytes)
+             (outs : list bytes) : fturn :=
+    let '(got2, maxb2, scr2, pipe2, short) :=
+      if blen got1 <? cap1 then f_recv_more got1 cap1 maxb1 scr1 pipe1
+      else (got1, maxb1, scr1, pipe1, false) in
+    if short then FEnd (mkFR (Some (cap1, got2)) false cr) outs pipe2
+    else if blen got2 =? cap1 then
+      match unflat cr got2 with
+      | (cr', Some m) => FNext (mkFR None false cr') maxb2 scr2 pipe2 (outs ++ [m])
+      | (cr', None) => FEnd (mkFR None true cr') outs pipe2
+      end
+    else FNext (mkFR (Some (cap1, got2)) false cr) maxb2 scr2 pipe2 outs.
+
+  (* one turn of the loop 206-318 (stream branch), including the loop condition *)
+  Definition f_turn (st : frecv) (maxb : N) (scr : list N) (pipe : bytes) (outs : list bytes) : fturn :=
+    if (maxb =? 0) || fr_err st then FEnd st outs pipe else
+    let '(cap, got) := match fr_buf st with Some x => x | None => (f_scratch, []) end in
+    match f_header_phase (fr_cr st) cap got maxb scr pipe with
+    | FStop st' pipe' => FEnd st' outs pipe'
+    | FCont cap1 got1 maxb1 scr1 pipe1 =>
+        if f_hs <=? blen got1 then f_body_phase (fr_cr st) cap1 got1 maxb1 scr1 pipe1 outs
+        else FNext (mkFR (Some (cap1, got1)) false (fr_cr st)) maxb1 scr1 pipe1 outs
+    end.
+
   Fixpoint f_in_loop (fuel : nat) (st : frecv) (maxb : N) (scr : list N) (pipe : bytes)
            (outs : list bytes) {struct fuel} : frecv * list bytes * bytes :=
     match fuel with
     | O => (st, outs, pipe)
     | S fuel' =>
-      if (maxb =? 0) || fr_err st then (st, outs, pipe) else
-      let '(cap, got) := match fr_buf st with Some x => x | None => (f_scratch, []) end in
-      match f_header_phase (fr_cr st) cap got maxb scr pipe with
-      | FStop st' pipe' => (st', outs, pipe')
-      | FCont cap1 got1 maxb1 scr1 pipe1 =>
-        if f_hs <=? blen got1 then
-          (* lines 303-316: body phase *)
-          let '(got2, maxb2, scr2, pipe2, short) :=
-            if blen got1 <? cap1 then f_recv_more got1 cap1 maxb1 scr1 pipe1
-            else (got1, maxb1, scr1, pipe1, false) in
-          if short then (mkFR (Some (cap1, got2)) false (fr_cr st), outs, pipe2)
-          else if blen got2 =? cap1 then
-            match unflat (fr_cr st) got2 with
-            | (cr', Some m) => f_in_loop fuel' (mkFR None false cr') maxb2 scr2 pipe2 (outs ++ [m])
-            | (cr', None) => (mkFR None true cr', outs, pipe2)
-            end
-          else f_in_loop fuel' (mkFR (Some (cap1, got2)) false (fr_cr st)) maxb2 scr2 pipe2 outs
-        else f_in_loop fuel' (mkFR (Some (cap1, got1)) false (fr_cr st)) maxb1 scr1 pipe1 outs
+      match f_turn st maxb scr pipe outs with
+      | FEnd st' outs' pipe' => (st', outs', pipe')
+      | FNext st' maxb' scr' pipe' outs' => f_in_loop fuel' st' maxb' scr' pipe' outs'
       end
     end.
 
@@ -167,29 +182,30 @@ Section Frame.
   (* ------------------------------------------------------------------ byte-at-a-time reference
      receiver (L0): the same header/body machine advanced one byte per step; used to state the
      split lemma and to characterise what any sequence of DoInput calls delivers. *)
+  (* a complete buffer: reconstruct the Message, reset *)
+  Definition f_done (cr : CR) (buf : bytes) : frecv * list bytes :=
+    match unflat cr buf with
+    | (cr', Some m) => (mkFR None false cr', [m])
+    | (cr', None) => (mkFR None true cr', [])
+    end.
+
+  (* the 8th header byte has arrived *)
+  Definition f_hdr_done (cr : CR) (cap : N) (got1 : bytes) : frecv * list bytes :=
+    match f_header cap got1 with
+    | None => (mkFR (Some (cap, got1)) true cr, [])
+    | Some cap1 => if blen got1 =? cap1 then f_done cr got1
+                   else (mkFR (Some (cap1, got1)) false cr, [])
+    end.
+
   Definition f_byte (st : frecv) (b : byte) : frecv * list bytes :=
     if fr_err st then (st, []) else
     let '(cap, got) := match fr_buf st with Some x => x | None => (f_scratch, []) end in
     let got1 := got ++ [b] in
     if blen got <? f_hs then
-      if f_hs <=? blen got1 then
-        match f_header cap got1 with
-        | None => (mkFR (Some (cap, got1)) true (fr_cr st), [])
-        | Some cap1 =>
-            if blen got1 =? cap1 then
-              match unflat (fr_cr st) got1 with
-              | (cr', Some m) => (mkFR None false cr', [m])
-              | (cr', None) => (mkFR None true cr', [])
-              end
-            else (mkFR (Some (cap1, got1)) false (fr_cr st), [])
-        end
+      if f_hs <=? blen got1 then f_hdr_done (fr_cr st) cap got1
       else (mkFR (Some (cap, got1)) false (fr_cr st), [])
     else
-      if blen got1 =? cap then
-        match unflat (fr_cr st) got1 with
-        | (cr', Some m) => (mkFR None false cr', [m])
-        | (cr', None) => (mkFR None true cr', [])
-        end
+      if blen got1 =? cap then f_done (fr_cr st) got1
       else (mkFR (Some (cap, got1)) false (fr_cr st), []).
 
   Fixpoint f_feed (st : frecv) (bs : bytes) : frecv * list bytes :=
